@@ -311,13 +311,16 @@ def body_update(desc, F, *args):
             u.algebra = [_subst(x, m) for x in u.algebra]
         return u
 
-    upd = run_untraced(mk)
+    upd = None if desc.get("public") else run_untraced(mk)
     exp = ref_apply({k: list(v) for k, v in state.items()}, desc["ops"], consts, union)
     old = (sparql_mod.SPARQL_DEFAULT_GRAPH_UNION, sparql_mod.SPARQL_LOAD_GRAPHS)
     sparql_mod.SPARQL_DEFAULT_GRAPH_UNION = bool(union)
     sparql_mod.SPARQL_LOAD_GRAPHS = False  # USING <g> names a graph of the store, nothing is fetched
     try:
-        evalUpdate(g, upd)
+        if upd is None:
+            g.update(desc["text"])  # the public route: Graph.update(text) -> SPARQLUpdateProcessor.update
+        else:
+            evalUpdate(g, upd)
     finally:
         sparql_mod.SPARQL_DEFAULT_GRAPH_UNION, sparql_mod.SPARQL_LOAD_GRAPHS = old
     # compare graph by graph
@@ -458,7 +461,21 @@ def obligations(tier, seed):
                                     desc={"name": name, "ops": ops, "nconst": nc, "text": render(ops), "target": target, "union": union,
                                           "data": [list(x) for x in dd]},
                                     sig=[("x%d" % i, "i") for i in range(2 * len(dd) + nc)], budget=300 if n == 2 else 900))
+                    if nc == 0 and n == 2 and ds is shapes[0] and (tier == "thorough" or target != "ConjunctiveGraph"):
+                        # the same request as text through the public route Graph.update()
+                        obs.append(dict(oid="u/%s%s/%s/%s-public" % (target, "+union" if union else "", name, tag), family="update",
+                                        desc={"name": name, "ops": ops, "nconst": nc, "text": render(ops), "target": target, "union": union,
+                                              "data": [list(x) for x in dd], "public": True},
+                                        sig=[("x%d" % i, "i") for i in range(2 * len(dd))], budget=300))
     return obs
+
+
+def untraced():
+    # the `public` obligations call Graph.update(text): rdflib's parser and translator run on concrete text, outside the tracer
+    from rdflib.plugins.sparql.algebra import translateUpdate
+    from rdflib.plugins.sparql.parser import parseUpdate
+    from ..driver import default_untraced
+    return default_untraced() + [parseUpdate, translateUpdate]
 
 
 def bounds(tier):
@@ -467,6 +484,7 @@ def bounds(tier):
                       "ALL,GRAPH g,missing graph}, ADD/MOVE/COPY for every (src,dst) over {DEFAULT,g1,g2,missing} incl. src=dst, two-operation "
                       "requests) x {Graph, Dataset/switch off, Dataset(default_union)/switch on, ConjunctiveGraph/switch on} x data shapes with "
                       "n=2%s symbolic triples over default/g1/g2" % (len(requests(True)), "" if tier == "quick" else " and n=3"),
+            "public": "every template without constants also as text through Graph.update() -> SPARQLUpdateProcessor (first data shape, n=2)",
             "outside": "LOAD, CREATE, initBindings on updates, SILENT, the combination switch on + Dataset(default_union=False), n>3"}
 
 
